@@ -89,10 +89,13 @@ static void init(void)
 {
 	g_c.compress = true;
 	g_c.block_size = verif_nd_size("bs");
+	/* option ranges as validated by gzip_compressor_create */
 	g_c.opt.level = verif_nd_u32("level");
+	VERIF_ASSUME(g_c.opt.level >= SQFS_GZIP_MIN_LEVEL &&
+		     g_c.opt.level <= SQFS_GZIP_MAX_LEVEL);
 	g_c.opt.window = verif_nd_u16("window");
 	g_c.opt.strategies = verif_nd_u16("strategies");
-	VERIF_ASSUME((g_c.opt.strategies & ~SQFS_COMP_FLAG_GZIP_ALL) == 0);
+	VERIF_ASSUME((g_c.opt.strategies & ~(unsigned)SQFS_COMP_FLAG_GZIP_ALL) == 0);
 	g_c.strm.total_out = verif_nd_u64("stale_total_out");
 }
 #define COVER_EXTRA VERIF_COVER(g_c.opt.strategies != 0 && r > 0)
@@ -147,13 +150,16 @@ static xz_compressor_t g_c;
 static void init(void)
 {
 	g_c.block_size = verif_nd_size("bs");
+	/* option ranges as validated by xz_compressor_create */
 	g_c.dict_size = verif_nd_size("dict");
+	VERIF_ASSUME(g_c.dict_size >= SQFS_XZ_MIN_DICT_SIZE &&
+		     g_c.dict_size <= SQFS_XZ_MAX_DICT_SIZE);
 	g_c.level = verif_nd_u8("level");
 	g_c.lc = verif_nd_u8("lc");
 	g_c.lp = verif_nd_u8("lp");
 	g_c.pb = verif_nd_u8("pb");
 	g_c.flags = verif_nd_u16("flags");
-	VERIF_ASSUME((g_c.flags & ~SQFS_COMP_FLAG_XZ_ALL) == 0);
+	VERIF_ASSUME((g_c.flags & ~(unsigned)SQFS_COMP_FLAG_XZ_ALL) == 0);
 }
 #define COVER_EXTRA VERIF_COVER(g_c.flags != 0 && r > 0 && g_lib_calls > 2)
 
@@ -214,7 +220,7 @@ static void init(void)
 /* zstd.h: error codes are the top of the size_t range */
 unsigned ZSTD_isError(size_t code)
 {
-	return code > (size_t)-ZSTD_error_maxCode;
+	return code > (size_t)0 - (size_t)ZSTD_error_maxCode;
 }
 
 ZSTD_ErrorCode ZSTD_getErrorCode(size_t functionResult)
@@ -308,10 +314,12 @@ static lzma_compressor_t g_c;
 #define DO_BLOCK lzma_comp_block
 static void init(void)
 {
+	/* block size of a SquashFS image: at most 1 MiB */
 	g_c.block_size = verif_nd_size("bs");
+	VERIF_ASSUME(g_c.block_size <= SQFS_MAX_BLOCK_SIZE);
 	g_c.dict_size = verif_nd_size("dict");
 	g_c.flags = verif_nd_u32("flags");
-	VERIF_ASSUME((g_c.flags & ~SQFS_COMP_FLAG_LZMA_ALL) == 0);
+	VERIF_ASSUME((g_c.flags & ~(sqfs_u32)SQFS_COMP_FLAG_LZMA_ALL) == 0);
 	g_c.level = verif_nd_u8("level");
 	g_c.lc = verif_nd_u8("lc");
 	g_c.lp = verif_nd_u8("lp");
